@@ -282,6 +282,19 @@ bool dispatch_table(State& st, const std::string& op, const json& a, json& ret)
         ret = true;
         return true;
     }
+    if (op == "lib_exists")
+    {
+        ret = ev2::engine_library::exists(a.at("dir").get<std::string>());
+        return true;
+    }
+    if (op == "lib_load_probe")
+    {
+        // the 2.x-specific loader: load and immediately release, without disturbing the current state
+        auto lib = ev2::engine_library::load(a.at("dir").get<std::string>());
+        ret["schema"] = eng::to_string(lib.schema());
+        ret["version_name"] = lib.database().version_name();
+        return true;
+    }
     if (op == "lib_load")
     {
         st.reset();
